@@ -238,3 +238,28 @@ def from_us(us):
 
 NOW_MIN_US = to_us(datetime.datetime(1, 1, 1, tzinfo=datetime.timezone.utc))
 NOW_MAX_US = to_us(datetime.datetime(9999, 12, 31, 23, 59, 59, 999999, tzinfo=datetime.timezone.utc))
+
+
+def calendar_texts(rng, exhaustive):
+    """canonical-shape texts covering the calendar: (every | a stratified sample of) year 0000..9999 x month 00..13 x
+    day 00,01,28..32; plus every hh:mm in 00..99 x 00..99 and every offset +-(00..99)(00..99) on a fixed date"""
+    if exhaustive:
+        years = range(0, 10000)
+    else:
+        ys = set(range(0, 51)) | set(range(0, 10000, 100)) | set(range(1580, 1601)) | set(range(1890, 2111)) | set(range(9990, 10000))
+        ys |= {rng.randrange(10000) for _ in range(300)}
+        years = sorted(ys)
+    out = []
+    for y in years:
+        for m in range(0, 14):
+            for d in (0, 1, 28, 29, 30, 31, 32):
+                out.append(f'{y:04d}-{m:02d}-{d:02d} 12:00+0000')
+    step = 1 if exhaustive else 7
+    for h in range(0, 100, 1):
+        for mi in range(0, 100, step):
+            out.append(f'2024-02-29 {h:02d}:{mi:02d}-0130')
+    for sg in '+-':
+        for zh in range(0, 100):
+            for zm in range(0, 100, step):
+                out.append(f'1995-07-02 00:00{sg}{zh:02d}{zm:02d}')
+    return out
